@@ -125,7 +125,7 @@ def _scale_once(ctx, term, name, site):
         elif op == "pinv":
             x = degree(a[0], memo)
             d = None if x is None else -x
-        elif op in ("T", "getitem", "reshape", "reshape1", "mean", "sum", "stack", "neg", "astype", "append", "head", "dg", "elem"):
+        elif op in ("T", "getitem", "reshape", "reshape1", "mean", "sum", "stack", "neg", "astype", "append", "head", "dg", "elem", "blocks", "diagof", "trace"):
             xs = [degree(x, memo) for x in a if isinstance(x, Term) and x.op not in ("const", "dim", "lv", "slice", "tuple", "range")]
             xs = [x for x in xs if x is not None]
             d = max(xs) if xs else 0
